@@ -4,14 +4,15 @@
 `_read_ndef_data` and `_write_ndef_data` are folded by the checker's own evaluator (nfcsa.q.fold_block) for a grid of Nbr / Nbw values
 and message lengths with the tag commands modelled (attribute block access, Read / Write Without Encryption of the NDEF service): the
 result per grid point is the command sequence of the source text.  The rule states that the block lists partition 1..ceil(len/16) in
-order, with at most min(N, 15 | 13) blocks per command, and that what is read / written is the message.  Nothing of the repository is
+order, with at most N blocks per command and no command or response frame longer than the 255 octets its length octet can announce, and that what is read / written is the message.  Nothing of the repository is
 imported or executed."""
 import ast
 
 from ..q import fold_block, NotConst
 
-READ_GRID = [(nbr, ln) for nbr in (1, 4, 15, 20) for ln in (0, 1, 16, 17, 100, 240, 241, 500)]
-WRITE_GRID = [(nbw, ln) for nbw in (1, 4, 13, 20) for ln in (0, 1, 16, 17, 100, 208, 209, 300)]
+READ_GRID = [(nbr, ln) for nbr in (1, 4, 15, 20) for ln in (0, 1, 16, 17, 100, 240, 241, 500)] + [(nbr, ln) for nbr in (12, 15, 20) for ln in (4081, 4320, 4784)]
+WRITE_GRID = [(nbw, ln) for nbw in (1, 4, 13, 20) for ln in (0, 1, 16, 17, 100, 208, 209, 300)] + \
+    [(nbw, ln) for nbw in (7, 12, 13, 15, 20) for ln in (4081, 4150, 4320, 4784)]        # block numbers above 255 take three octets in the block list
 
 
 def _body(f):
@@ -23,13 +24,21 @@ def _block(k):
     return bytes((k * 16 + j * 3) & 0xFF for j in range(16))
 
 
-def _partition(cmds, ln, per_cmd):
+def _partition(cmds, ln, per_cmd, write=False):
     blocks = [b for c in cmds for b in c]
     want = list(range(1, 1 + (ln + 15) // 16))
     if blocks != want:
         return 'blocks addressed %s, the message occupies %s' % (_short(blocks), _short(want))
     if any(len(c) == 0 or len(c) > per_cmd for c in cmds):
         return 'a command addresses %s blocks (limit %d)' % (sorted(set(len(c) for c in cmds)), per_cmd)
+    for c in cmds:
+        # JIS X 6319-4 frame: LEN octet (<= 255) counts itself, the command code, IDm, one service (1 + 2), the block count and the block
+        # list (two octets per block number below 256, three above); a write command carries 16 octets per block, a read response
+        # LEN, code, IDm, two status flags, the block count and 16 octets per block
+        cmd_len = 1 + 1 + 8 + 1 + 2 + 1 + sum(2 if b < 256 else 3 for b in c) + (16 * len(c) if write else 0)
+        rsp_len = 1 + 1 + 8 + 2 + (0 if write else 1 + 16 * len(c))
+        if cmd_len > 255 or rsp_len > 255:
+            return 'the command for blocks %s needs a frame of %d octets (response %d), a frame holds 255' % (_short(c), cmd_len, rsp_len)
     return None
 
 
@@ -60,8 +69,8 @@ def _read_verdicts(prog):
         def read(*blocks):
             cmds.append(list(blocks))
             return bytearray(b''.join(_block(k) for k in blocks))
-        attrs = {'ver': 0x10, 'nbr': nbr, 'nbw': 13 if nbr < 13 else 1, 'nmaxb': 40, 'writef': 0, 'rwflag': 1, 'ln': ln}
-        env = {'self.tag.sys': 0x12FC, 'self._capacity': 640,
+        attrs = {'ver': 0x10, 'nbr': nbr, 'nbw': 13 if nbr < 13 else 1, 'nmaxb': 300, 'writef': 0, 'rwflag': 1, 'ln': ln}
+        env = {'self.tag.sys': 0x12FC, 'self._capacity': 4800,
                '__calls__': {'self._read_attribute_data': lambda: dict(attrs), 'self.tag.read_from_ndef_service': read,
                              'self._tag.read_from_ndef_service': read}}
         where = 'Nbr %d, Ln %d' % (nbr, ln)
@@ -70,8 +79,8 @@ def _read_verdicts(prog):
         except (NotConst, IndexError, TypeError, ValueError, KeyError) as e:
             bad.append('%s: cannot fold (%s)' % (where, e))
             continue
-        mem = b''.join(_block(k) for k in range(1, 41))
-        why = _partition(cmds, ln, min(nbr, 15))
+        mem = b''.join(_block(k) for k in range(1, 301))
+        why = _partition(cmds, ln, nbr)
         if why is None and (r[0] != 'return' or r[1] is None or bytes(r[1]) != mem[:ln]):
             why = 'returns %s' % (('%d bytes' % len(r[1])) if r[0] == 'return' and r[1] is not None else str(r))
         if why:
@@ -85,8 +94,8 @@ def _write_verdicts(prog):
     for nbw, ln in WRITE_GRID:
         seq = []
         msg = bytes((i * 11 + 1) & 0xFF for i in range(ln))
-        attrs = {'ver': 0x10, 'nbr': 15 if nbw < 13 else 1, 'nbw': nbw, 'nmaxb': 40, 'writef': 0, 'rwflag': 1, 'ln': 7}
-        env = {'data': bytearray(msg), 'self._capacity': 640,
+        attrs = {'ver': 0x10, 'nbr': 15 if nbw < 13 else 1, 'nbw': nbw, 'nmaxb': 300, 'writef': 0, 'rwflag': 1, 'ln': 7}
+        env = {'data': bytearray(msg), 'self._capacity': 4800,
                '__calls__': {'self._read_attribute_data': lambda: dict(attrs),
                              'self._write_attribute_data': lambda a: seq.append(('attr', dict(a))),
                              'self._tag.write_to_ndef_service': lambda d, *blocks: seq.append(('data', bytes(d), list(blocks))),
@@ -98,7 +107,7 @@ def _write_verdicts(prog):
             bad.append('%s: cannot fold (%s)' % (where, e))
             continue
         data_cmds = [s for s in seq if s[0] == 'data']
-        why = _partition([s[2] for s in data_cmds], ln, min(nbw, 13))
+        why = _partition([s[2] for s in data_cmds], ln, nbw, write=True)
         if why is None and any(len(s[1]) != 16 * len(s[2]) for s in data_cmds):
             why = 'a command carries %s bytes for %s blocks' % ([len(s[1]) for s in data_cmds][:3], [len(s[2]) for s in data_cmds][:3])
         if why is None and b''.join(s[1] for s in data_cmds) != msg + bytes(-ln % 16):
